@@ -37,7 +37,7 @@ import sys
 from concurrent.futures import ProcessPoolExecutor
 from pathlib import Path
 
-TOOL_VERSION = "racetable-8"
+TOOL_VERSION = "racetable-9"
 CLANG = os.environ.get("BFL_CLANG", "clang++-14")
 EIGEN_INC = "/usr/include/eigen3"
 
@@ -302,6 +302,12 @@ class TU:
             key = n["_key"]
             w = Walker(self, key)
             w.function(n)
+            if w.spawn_pos is not None:
+                # what the spawning function does before it creates the thread is ordered before everything
+                # the new thread does (thread creation synchronises): not part of the concurrent phase
+                for r in w.rows:
+                    if (r["line"], r["col"]) < w.spawn_pos and r.get("kindhint") != "thread":
+                        r["pre_spawn"] = True
             b = self.bodies.setdefault(key, {"rows": [], "calls": [], "file": self.rel(n["_pos"][0]), "line": n["_pos"][1],
                                              "end_line": (n.get("_end") or n["_pos"])[1]})
             for r in w.rows:
@@ -321,6 +327,7 @@ class Walker:
     def __init__(self, tu, key):
         self.tu, self.key = tu, key
         self.rows, self.calls, self.tops = [], [], []
+        self.spawn_pos = None   # (line, col) of the first std::thread construction from a library function
         self.lockvars = {}      # lock variable id -> (mutexes, id of the block it is declared in)
         self.pending_manual = None
         self.held = []          # list of (var decl id, frozenset of (cls, mutexname)), innermost last
@@ -351,7 +358,7 @@ class Walker:
     def row(self, f, acc, self_base, node):
         cls, name, kind, ty = f
         file, line, col = node.get("_pos", ("", 0, 0))
-        self.rows.append({"cls": cls, "field": name, "acc": acc, "self": bool(self_base),
+        self.rows.append({"cls": cls, "field": name, "acc": acc, "self": bool(self_base), "kindhint": kind,
                           "locks": ["%s::%s" % m for m in self.locks_now()] if self_base else [],
                           "file": self.tu.rel(file), "line": line, "col": col})
 
@@ -462,6 +469,8 @@ class Walker:
             cid = (n.get("ctorType") and None)
             is_thread = qt(n) in ("std::thread", "class std::thread") or dqt(n) == "std::thread"
             if is_thread:
+                if self.spawn_pos is None and self.refers_to_library_function(n):
+                    self.spawn_pos = (n.get("_pos", ("", 0, 0))[1], n.get("_pos", ("", 0, 0))[2])
                 self.in_thread_ctor += 1
                 self.visit_children(n)
                 self.in_thread_ctor -= 1
@@ -563,8 +572,9 @@ class Walker:
         return b is not None and b["kind"] == "CXXThisExpr"
 
     # ---- call edges
-    def add_call(self, key, kind, on_this=False):
-        c = {"callee": list(key), "kind": kind, "this": bool(on_this),
+    def add_call(self, key, kind, on_this=False, node=None):
+        pos = (node or {}).get("_pos", ("", 0, 0))
+        c = {"callee": list(key), "kind": kind, "this": bool(on_this), "file": self.tu.rel(pos[0]) if pos[0] else "", "line": pos[1], "col": pos[2],
              "locks": ["%s::%s" % m for m in self.locks_now()] if on_this else []}
         if c not in self.calls:
             self.calls.append(c)
@@ -594,7 +604,7 @@ class Walker:
             parent = self.stack[-1] if self.stack else None
             if parent is not None and parent["kind"] == "CXXMemberCallExpr" and inner(parent)[0] is m:
                 # a call `x.C::f()` with explicit qualification is not dispatched virtually
-                self.add_call(key, "direct" if self.explicitly_qualified(m) else "member", self.base_is_this(m))
+                self.add_call(key, "direct" if self.explicitly_qualified(m) else "member", self.base_is_this(m), m)
             else:
                 self.add_call(key, "spawn" if self.in_thread_ctor else "ref")
             return
@@ -780,6 +790,9 @@ def tree_hash(repo):
     return h.hexdigest()[:24]
 
 
+ESC_RET = re.compile(r"(&|\*|\bEigen::(Ref|Map|Block)\s*<[^()]*>)\s*(const\s*)?$")
+
+
 def translation_units(repo):
     """the sources the library is built from (CMakeLists.txt of the library; commented entries skipped);
     falls back to every src/*.cpp"""
@@ -914,7 +927,7 @@ def merge(res):
             methods[k] = {"cls": k[0], "name": k[1], "sig": k[2], "virtual": False, "pure": False, "kind": "FunctionDecl", "body": True}
 
     # call edges, virtual calls expanded over the hierarchy
-    calls, sites = [], []
+    calls, sites, site_pos = [], [], []
     for k, b in bodies.items():
         for c in b["calls"]:
             callee = tuple(c["callee"])
@@ -946,6 +959,8 @@ def merge(res):
                 if e not in calls:
                     calls.append(e)
                 sites.append((k, t, kd, bool(c.get("this")), tuple(c.get("locks", []))))
+                if c.get("line"):
+                    site_pos.append((k, t, kd, bool(c.get("this")), c.get("file", ""), c["line"], c.get("col", 0)))
 
     fields = []
     for c in sorted(classes):
@@ -971,10 +986,25 @@ def merge(res):
                       "kind": m["kind"], "body": m["body"], "file": b.get("file", ""), "line": b.get("line", 0), "end_line": b.get("end_line", 0)})
     mid = {k: i for i, k in enumerate(mkeys)}
     fid = {(f["cls"], f["name"]): i for i, f in enumerate(fields)}
+    # a function that hands out a reference / pointer / Eigen::Ref into its object: the access really happens where
+    # the caller uses the result — copy the accessor's member rows to every call site (no lock credited)
+    for (k, t, kd, th, file, line, col) in site_pos:
+        if kd in ("direct", "virtual") and t in bodies and t in methods and ESC_RET.search(t[2].split("(")[0].strip()):
+            for r in bodies[t]["rows"]:
+                if r.get("kindhint") in ("atomic", "mutex", "condvar") or r.get("via") or r.get("from_accessor"):
+                    continue
+                nr = dict(r, locks=[], file=file or bodies[k]["file"], line=line, col=col, from_accessor=True)
+                nr["self"] = bool(r["self"] and th)
+                nr.pop("pre_spawn", None)
+                if nr not in bodies[k]["rows"]:
+                    bodies[k]["rows"].append(nr)
     accesses, via_rows = [], []
     for k in mkeys:
         for r in bodies.get(k, {}).get("rows", []):
             if (r["cls"], r["field"]) not in fid:
+                continue
+            if r.get("pre_spawn"):
+                via_rows.append({"meth": mid[k], "field": fid[(r["cls"], r["field"])], "line": r["line"], "via": "before the thread is created"})
                 continue
             if r.get("via") and tuple(r["via"]) in bodies:
                 # object of a call into the library: the callee's rows say what is touched
@@ -1062,9 +1092,8 @@ def apply_entry_locks(facts, roots):
             if acc is not TOP and acc != entry[i]:
                 entry[i] = acc
                 changed = True
-    ESC = re.compile(r"(&|\*|\bEigen::(Ref|Map|Block)\s*<[^()]*>)\s*(const\s*)?$")
     for m in M:
-        m["escapes"] = bool(m["body"] and ESC.search(m["sig"].split("(")[0].strip()))
+        m["escapes"] = bool(m["body"] and ESC_RET.search(m["sig"].split("(")[0].strip()))
     for a in A:
         a.setdefault("locks_syntactic", list(a["locks"]))
         e = entry.get(a["meth"])
@@ -1187,6 +1216,12 @@ def token_oracle(facts, repo):
     classes = facts["classes"]
     have = {(a["meth"], F[a["field"]]["cls"], F[a["field"]]["name"]) for a in A}
     have_any = {(a["meth"], F[a["field"]]["name"]) for a in A} | {(a["meth"], F[a["field"]]["name"]) for a in facts.get("accesses_via", [])}
+    closure_rows = [(M[a["meth"]]["file"], a["line"], F[a["field"]]["name"]) for a in A if "$closure" in M[a["meth"]]["name"]]
+    for mi, m in enumerate(M):
+        if m["body"] and m.get("end_line"):
+            for (cf, cl, cn) in closure_rows:
+                if cf == m["file"] and m["line"] <= cl <= m["end_line"]:
+                    have_any.add((mi, cn))
     fields_of = {}
     for f in F:
         fields_of.setdefault(f["cls"], set()).add(f["name"])
